@@ -7,7 +7,7 @@ import logging
 import os
 import sys
 from collections.abc import Mapping, Sequence, Set
-from typing import Any
+from typing import Any, Literal
 logging.disable(logging.CRITICAL)
 
 from haiway import MISSING, Missing, State
@@ -131,6 +131,40 @@ def defaulted_attributes():
     return out
 
 
+class LitInt(State):           # declared first
+    version: Literal[1] = 1
+    name: str = "n"
+
+
+class LitBool(State):          # declared later: an ==-equal literal of another type is its own annotation
+    strict: Literal[True] = True
+    name: str = "n"
+
+
+def lookalike_literals():
+    out = []
+    try:
+        t = LitBool(strict=True)
+        if t.updated(strict=True) != t or copy.copy(t) != t or type(t.updated(strict=True).strict) is not bool:
+            out.append("LitBool(strict=True): updated / copy do not give an equal instance holding True")
+    except Exception as e:  # noqa
+        out.append(f"LitBool(strict=True) / its update was rejected: {e!r}"[:200])
+        return out
+    for bad in (1, 1.0, False, "True"):
+        try:
+            u = t.updated(strict=bad)
+            out.append(f"LitBool.updated(strict={bad!r}) was accepted and holds {u.strict!r}")
+        except Exception:  # noqa
+            pass
+    for bad in (True, 1.0):
+        try:
+            LitInt(version=bad)
+            out.append(f"LitInt(version={bad!r}) was accepted")
+        except Exception:  # noqa
+            pass
+    return out
+
+
 def history_independence():
     """What an instance holds depends on the arguments of *its* construction alone, never on which values other
     instances of the class were built from before (validators keep no history)."""
@@ -200,6 +234,7 @@ def problems():
     out += updated_sweep()
     out += history_independence()
     out += defaulted_attributes()
+    out += lookalike_literals()
     p = Plain(n=2, seq=[1], inner=Inner(x=3))
     for name, f in (("copy", copy.copy), ("deepcopy", copy.deepcopy)):
         try:
